@@ -107,7 +107,9 @@ def cfgs(tier):
           l3.Cfg("empty", replacement="", num=True),
           # backslash sequences that look like escapes, and characters JSON can only carry as \\uXXXX escapes (C0 controls, DEL, a non-printable
           # supplementary-plane code point)
-          l3.Cfg("esc", replacement="C:\\temp\\new \\u2588 a\\\\b \x01\x07\x0b\x7f\U000e0001", ns=True, bool=True)]
+          l3.Cfg("esc", replacement="C:\\temp\\new \\u2588 a\\\\b \x01\x07\x0b\x7f\U000e0001", ns=True, bool=True),
+          # a replacement text that is itself e-mail shaped (a literal that is no e-mail still becomes exactly this text - once)
+          l3.Cfg("mailrepl", replacement="anon@example.org", num=True)]
     if tier == "thorough":
         cs += [l3.Cfg("nl", replacement="tab\there", bool=True), l3.Cfg("long", replacement="R" * 300), l3.Cfg("ns", ns=True, ips=True, replacement="Ω")]
     return cs
